@@ -34,6 +34,16 @@ theorem iterate_exact (hist : List Nat) (hdesc : hist.Pairwise (fun a b => a > b
   rw [hpend] at this
   exact this
 
+/-- "Every item exactly once", spelled out: the yielded sequence has no duplicates and contains an
+id iff the server history does — for every page size and answer constructor sequence. -/
+theorem iterate_each_exactly_once (hist : List Nat) (hdesc : hist.Pairwise (fun a b => a > b))
+    (hpos : ∀ x ∈ hist, 0 < x) (limit : Nat) (hlimit : 1 ≤ limit) (ks : List Kind)
+    (fuel : Nat) (hfuel : hist.length < fuel) :
+    (run hist fuel ks (Iter.init limit)).yields.Nodup ∧
+    ∀ x, x ∈ (run hist fuel ks (Iter.init limit)).yields ↔ x ∈ hist := by
+  rw [(iterate_exact hist hdesc hpos limit hlimit ks fuel hfuel).1]
+  exact ⟨hdesc.imp (fun h => by omega), fun _ => Iff.rfl⟩
+
 /-- The iteration costs at most `⌈n / limit⌉ + 1` requests (the last one discovers the end), for any
 number of `Next` calls. -/
 theorem iterate_requests_bounded (hist : List Nat) (hdesc : hist.Pairwise (fun a b => a > b))
